@@ -40,6 +40,7 @@ CONSTANTS Ids,                 \* possible unit ids (the id generator may pick a
           RunEnabled,          \* FALSE: units are never started (id-uniqueness configuration)
           Ops,                 \* subset of {"submit","cancel","release","status"} the clients use
           FindUnitHoldsRLock,  \* TRUE: findUnit keeps the read lock while rescanning (the code before the fix)
+          TruncFirst,          \* TRUE: UpdateFullStatus truncates before it writes (the code before its repair)
           KF_EmptyStatus,      \* TRUE: Durable is checked modulo the known finding "empty status after crash"
           KF_LiveRunnerFailed, \* TRUE: Durable is checked modulo the finding "unit with a live runner marked Failed at restart"
           KF_CancelOverS,      \* TRUE: SucceededIsFinal is checked modulo the finding "Cancel overwrites Succeeded"
@@ -81,7 +82,7 @@ VARIABLES
   \* ---- actors
   loc,      \* [Actors -> location]
   uid,      \* [Actors -> Ids | None]   unit the actor works on
-  ufs,      \* [Actors -> "none","locked","read","applied","truncd","written"]
+  ufs,      \* [Actors -> "none","locked","read","applied","truncd"|"wrote","written"]
   rl,       \* [Ids -> rec]             the runner's private status object
   \* ---- runner / payload processes
   ours,     \* [Ids -> BOOLEAN]         the runner is a child of the CURRENT daemon process (can be waited for)
@@ -208,16 +209,18 @@ UFS_Apply(a) ==
   /\ ufs' = [ufs EXCEPT ![a] = "applied"]
   /\ UNCHANGED <<disk, flock, up, active, mon, alock, todo, loc, uid, ours, rsig, child, ticks, book>>
 
+\* before the repair: Truncate(0) then write (the file is empty in between); since: write in place, then
+\* Truncate(new length), which only cuts a stale tail no reader can see
 UFS_Trunc(a) ==
-  /\ Alive(a) /\ ufs[a] = "applied"
-  /\ sfile' = [sfile EXCEPT ![uid[a]] = IF dir[uid[a]] THEN Empty ELSE @]
-  /\ ufs' = [ufs EXCEPT ![a] = "truncd"]
+  /\ Alive(a) /\ ufs[a] = (IF TruncFirst THEN "applied" ELSE "wrote")
+  /\ sfile' = [sfile EXCEPT ![uid[a]] = IF TruncFirst /\ dir[uid[a]] THEN Empty ELSE @]
+  /\ ufs' = [ufs EXCEPT ![a] = IF TruncFirst THEN "truncd" ELSE "written"]
   /\ UNCHANGED <<dir, stdin, stdout, flock, up, active, mem, mon, alock, todo, loc, uid, rl, ours, rsig, child, ticks, book, bad>>
 
 UFS_Write(a) ==
-  /\ Alive(a) /\ ufs[a] = "truncd"
+  /\ Alive(a) /\ ufs[a] = (IF TruncFirst THEN "truncd" ELSE "applied")
   /\ sfile' = [sfile EXCEPT ![uid[a]] = IF dir[uid[a]] THEN Lcl(a) ELSE @]
-  /\ ufs' = [ufs EXCEPT ![a] = "written"]
+  /\ ufs' = [ufs EXCEPT ![a] = IF TruncFirst THEN "written" ELSE "wrote"]
   /\ UNCHANGED <<dir, stdin, stdout, flock, up, active, mem, mon, alock, todo, loc, uid, rl, ours, rsig, child, ticks, book, bad>>
 
 UFS_Unlock(a) ==
